@@ -106,7 +106,14 @@ def pureVerdicts (cfg : Cfg) (sc : Scenario) (xs : List String) : List String :=
         match prop, op with
         | "C16", "rect" :: rest => (rest.mapM String.toNat?).map (fun v => (Oracle.C16.check v got).toList)
         | "C14", "color" :: _ => some (Oracle.C14.check op got)
-        | "C03", "setpx" :: _ => some (Oracle.C03.check op got)
+        | "C03", "setpx" :: _ =>
+          -- the proved model determines the effect of every call exactly (Props/C03): a result that
+          -- differs from the model's is a concrete failing input, not only a broken correspondence
+          let base := Oracle.C03.check op got
+          let want := pureOp op
+          some (if base.isEmpty ∧ got ≠ want ∧ got ≠ "R=err" then
+            [s!"site=graphics/set_pixel/{op.getD 1 "?"} reason=effect-differs-from-proved-model got={(got.take 120).toString} want={(want.take 120).toString}"]
+          else base)
         | "C03", "setone" :: _ => some (Oracle.C03.check op got)
         | "C13", "alias" :: _ => some (Oracle.C13.check op got)
         | "C13", "vardisp" :: _ => some (Oracle.C13.check op got)
